@@ -26,7 +26,8 @@ from ..boot import Runaway, VClock
 from ..runner import CaseResult, Prop
 
 RUN_ID = "run-c27"
-TOPIC = "ticks"
+OTHER_RUN = "run-other"
+DECOY_KEYS = ["work:2", "__pull__:0", "gather:1", "work:0"]
 N_STEP = "step"
 N_NOW = "_durable_time"
 N_RECV = "DBOS.recv"
@@ -46,10 +47,6 @@ CREATE TABLE IF NOT EXISTS operation_outputs (
     PRIMARY KEY (workflow_uuid, function_id)
 );
 """
-
-
-class Crash(BaseException):
-    """Never raised into repository code; marks harness-internal aborts."""
 
 
 # ---------------------------------------------------------------------------------------------------------------------
@@ -90,6 +87,7 @@ class DurableLog:
     def __init__(self, db_path: str):
         self.db_path = db_path
         self.conn = sqlite3.connect(db_path, isolation_level=None)
+        self.conn.execute("PRAGMA synchronous=OFF")
         self.mailbox: list[bytes] = []
         self.waiters: list[asyncio.Future] = []
         self.stream: list[bytes] = []
@@ -116,12 +114,19 @@ class DurableLog:
         )
 
     def ops_rows(self):
-        return self.conn.execute(
-            "SELECT function_id, function_name FROM operation_outputs WHERE workflow_uuid=? ORDER BY function_id", (RUN_ID,)
+        rows = self.conn.execute(
+            "SELECT function_id, function_name, output FROM operation_outputs WHERE workflow_uuid=? ORDER BY function_id", (RUN_ID,)
         ).fetchall()
+        return [(f, n, bool(n == N_RECV and o is not None and pickle.loads(o) is not None)) for f, n, o in rows]
 
     def journal_rows(self):
-        return self.conn.execute("SELECT id, run_id, seq_num, task_key FROM workflow_journal ORDER BY id").fetchall()
+        return self.conn.execute("SELECT id, run_id, seq_num, task_key FROM workflow_journal WHERE run_id=? ORDER BY id", (RUN_ID,)).fetchall()
+
+    def decoy_rows(self):
+        """Rows of another run living in the same tables: nothing the run under test does may touch them."""
+        j = self.conn.execute("SELECT run_id, seq_num, task_key FROM workflow_journal WHERE run_id<>? ORDER BY id", (RUN_ID,)).fetchall()
+        o = self.conn.execute("SELECT workflow_uuid, function_id, function_name FROM operation_outputs WHERE workflow_uuid<>? ORDER BY function_id", (RUN_ID,)).fetchall()
+        return [j, o]
 
     # -- notifications
     def send(self, tick) -> None:
@@ -164,6 +169,8 @@ class Life:
         self.bodies: list = []  # step body executions
         self.mismatch: list = []  # recorded function name != called function name (DBOSUnexpectedStepError in DBOS)
         self.waits: list = []  # observation of wait_for_next_task calls
+        self.task_fid: dict = {}  # worker task -> function id of the step call it made
+        self.returned: list = []  # (key, fid) of the worker tasks wait_for_next_task returned, in order
         self.finished = False
         self.where = None
 
@@ -269,6 +276,7 @@ class Life:
 
         async def wrapped(*a, **kw):
             fid = life.next_fid()
+            life.task_fid[asyncio.current_task()] = fid
             row = life.log.lookup(fid)
             if row is not None and life.check(fid, fname, row):
                 life.ops.append((fid, fname, True))
@@ -360,39 +368,51 @@ class C27(Prop):
         "collect_events gatherer; optionally a final wait_for_event with/without requirements, answered by an external client that tails "
         "the published stream) + one schedule per life (virtual duration of every step invocation, tie-break salt for simultaneously "
         "done tasks) + 1-2 stop points (index into the sequence of crash positions = immediately before/after every emulated durable "
-        "effect). The run is executed once uninterrupted (reference) and once as lives A,B(,C): each life runs the REAL control loop "
-        "over the REAL InternalDBOSAdapter.wait_for_next_task/TaskJournal/SqliteJournalCrud on one SQLite file and an emulated DBOS "
-        "substrate (function ids in call order, operation_outputs, recv/notifications, stream writes, durable steps that return a "
-        "recorded output without running their body); a life is stopped by freezing it at the stop point and cancelling all its tasks; "
-        "the next life re-executes the workflow function from the start event under a different schedule. Oracle per recovery: (a) the "
-        "ticks the recovered loop processes have the ticks of the stopped life as a prefix (full serialised form); (b) the events it "
-        "passes to the stream likewise; (c) no step body whose completion the stopped life had processed runs again; (d) the last "
-        "life finishes by the virtual horizon with the result of the uninterrupted run; (e) the journal only grows: the rows present at "
-        "the stop stay as they are, seq_nums are 0..n-1, worker keys equal the processed step results in order; (f) no durable operation "
-        "is looked up under a function id recorded for another function (DBOS raises DBOSUnexpectedStepError there). Non-trivial = "
-        "the first stop lies strictly inside the run (journal non-empty, run unfinished) and during the replay at least one other task "
-        "was already done when the journal-designated task was returned (the journal, not the schedule, decided)."
+        "effect of the uninterrupted run). The run is executed once uninterrupted (reference) and once as lives A,B(,C): each life runs "
+        "the REAL control loop over the REAL InternalDBOSAdapter.wait_for_next_task/_purge_orphaned_operations/TaskJournal/"
+        "SqliteJournalCrud on one SQLite file (package DDL, plus rows of another run) and an EMULATED DBOS substrate (function ids in "
+        "call order, operation_outputs, recv/notifications, stream writes, durable steps that return a recorded output without running "
+        "their body); a life is stopped by freezing it at the stop point and cancelling all its tasks; the next life re-executes the "
+        "workflow function from the start event under a different schedule. Oracle per recovery: (a) the ticks the recovered loop "
+        "processes (full serialised form) agree with the longest tick log of the earlier lives, and contain all of it unless the "
+        "recovered life is stopped itself; (b) the events it passes to the stream likewise; (c) no step body whose result an earlier "
+        "life had processed runs again; (d) the last life finishes by the virtual horizon with the result of the uninterrupted run; "
+        "(e) the journal only grows: rows present at a stop stay as they are, seq_nums are 0..n-1, worker keys equal the processed step "
+        "results in order, pull keys are sequential, rows of the other run are untouched; (f) no durable operation is looked up under "
+        "a function id recorded for another function (DBOS raises DBOSUnexpectedStepError there); (g) while the journal designates a "
+        "task, no other task is returned. Two root causes are observed directly and reported as one record each with their symptoms "
+        "folded in (a timer wake-up that was not journaled before a stop; a recorded receive deleted by the orphan purge). "
+        "Non-trivial = the first stop lies strictly inside the run (journal non-empty, run unfinished) and during a replay at least "
+        "one other task was already done when the journal-designated task was returned (the journal, not the schedule, decided)."
     )
     assumptions = [
-        "EMULATED, not DBOS: function ids are one counter per workflow execution, incremented in call order by get_now (_durable_time step), "
-        "recv, write_stream and every step call (in the step's synchronous preamble); an operation whose id has a recorded output returns it "
-        "without executing; a name mismatch is reported (DBOS raises DBOSUnexpectedStepError); outputs round-trip through pickle",
-        "EMULATED: recv consumes the oldest notification and records it as the operation output atomically; DBOS.send from a step (via "
-        "run_in_executor in the real adapter) and send_async from a client append to the durable mailbox and are not memoised",
-        "EMULATED: operation_outputs is a table in the journal's SQLite file with DBOS's column names (the package's own tests insert into it "
-        "the same way), so the repository's purge_operations_from really deletes emulated outputs",
-        "EMULATED: 'a process stop' = the life is frozen at a crash position (immediately before or after an emulated durable effect), every "
-        "task it created is cancelled, nothing durable can happen after the freeze; the next life starts with a fresh workflow/runtime/adapter",
-        "EmuAdapter overrides only send_event, wait_receive (same shutdown logic as the real one), write_to_event_stream, get_now, "
-        "get_state_store, on_tick (recording) and wraps wait_for_next_task with an observer that calls the inherited method unchanged",
-        "generated steps send events only in the instant they return, do not use the state store and do not write to the stream themselves "
-        "(DBOS steps are at-least-once: an interrupted body re-runs; such duplicates are outside this property)",
-        "task hashes are sequence numbers (task factory), so the pick among simultaneously finished tasks is a function of the case",
-        "shims: dbos, dbos._context/_dbos/_error, sqlalchemy.engine, asyncpg are import-only stand-ins; get_local_dbos_context() returns the "
-        "current emulated life",
+        "EMULATED, not DBOS: function ids are one counter per workflow execution, incremented in call order by get_now (the _durable_time "
+        "step), recv, write_stream and every step call (in the step's synchronous preamble); an operation whose id has a recorded output "
+        "returns it without executing; a function-name mismatch is reported (DBOS raises DBOSUnexpectedStepError); outputs round-trip "
+        "through pickle",
+        "EMULATED: recv consumes the oldest notification and records it as the operation output atomically; send_async from a client "
+        "appends to the durable mailbox and is not memoised",
+        "EMULATED: events sent by a step body (ctx.send_event) become durable together with the step's recorded outcome; in DBOS they are "
+        "sent at once, and a step interrupted after sending re-sends them when it is re-executed (documented at-least-once semantics of "
+        "steps, outside this property); generated steps do not use the state store and do not write to the stream themselves",
+        "EMULATED: operation_outputs is a table in the journal's SQLite file with DBOS's column names (the package's own tests insert into "
+        "it the same way), so the repository's purge_operations_from really deletes emulated outputs",
+        "EMULATED: 'a process stop' = the life is frozen at a crash position (immediately before or after an emulated durable effect), "
+        "every task it created is cancelled, nothing durable can happen after the freeze; the next life starts with a fresh workflow, "
+        "runtime and adapter over the same SQLite file, mailbox and stream",
+        "EmuAdapter(InternalDBOSAdapter) overrides only send_event, wait_receive (same shutdown logic as the real one, DBOS.recv_async "
+        "replaced), write_to_event_stream, get_now, get_state_store, on_tick (recording); wait_for_next_task is wrapped by an observer "
+        "that calls the inherited method unchanged; EmuRuntime(BasicRuntime) wraps steps the way DBOSRuntime.register does "
+        "(DBOS.step(name=workflow.step)) and runs create_workflow_run_function(workflow) as the workflow function",
+        "task hashes are sequence numbers (task factory), so the pick among simultaneously finished tasks (asyncio.wait's done.pop()) "
+        "is a function of the case",
+        "shims: dbos, dbos._context/_dbos/_error, sqlalchemy.engine, asyncpg are import-only stand-ins; get_local_dbos_context() returns "
+        "the current emulated life (function_id = id of the last durable operation started)",
+        "not covered: Postgres journal CRUD, DBOS's own recovery scheduling, executor leases, the idle-release decorator, real threads "
+        "(run_in_executor in the real send_event), durable calls made by a worker task outside its step",
     ]
-    budgets = {"quick": 1600, "thorough": 4000}
-    wall = {"quick": 50.0, "thorough": 540.0}
+    budgets = {"quick": 1600, "thorough": 3000}
+    wall = {"quick": 50.0, "thorough": 480.0}
 
     # ------------------------------------------------------------------------------------------------------------ setup
     def setup(self):
@@ -481,9 +501,12 @@ class C27(Prop):
                     named = list(running) + list(res.started)
                     others = [nt.key for nt in named if nt.task is not res.completed and nt.task.done()]
                     ckey = next((nt.key for nt in named if nt.task is res.completed), None)
+                    if res.completed is not None and res.completed in life.task_fid:
+                        life.returned.append((ckey, life.task_fid[res.completed]))
                     ent = self._journal._entries or []
                     expected = ent[idx] if idx < rows and idx < len(ent) else None
-                    life.waits.append({"expected": expected, "completed": ckey, "others_done": sorted(others), "timeout": timeout})
+                    life.waits.append({"expected": expected, "completed": ckey, "others_done": sorted(others), "timeout": timeout,
+                                       "expected_started": None if expected is None else any(nt.key == expected for nt in named)})
                 except Exception:  # noqa: BLE001
                     pass
                 return res
@@ -663,8 +686,17 @@ class C27(Prop):
         path = os.path.join(d, name)
         conn = sqlite3.connect(path)
         try:
+            conn.execute("PRAGMA journal_mode=WAL")  # speed only; the repository's CRUD opens its own connections as usual
             conn.executescript(self.ddl)
             conn.executescript(_OPS_DDL)
+            # a second run shares the tables (as in production): its rows must neither be replayed nor purged
+            for i, key in enumerate(DECOY_KEYS):
+                conn.execute("INSERT INTO workflow_journal (run_id, seq_num, task_key) VALUES (?,?,?)", (OTHER_RUN, i, key))
+            for fid in (1, 2, 500, 9000):
+                conn.execute(
+                    "INSERT INTO operation_outputs (workflow_uuid, function_id, function_name, output, error, started_at_epoch_ms) VALUES (?,?,?,?,NULL,0)",
+                    (OTHER_RUN, fid, N_NOW, pickle.dumps(1.0)),
+                )
             conn.commit()
         finally:
             conn.close()
@@ -769,6 +801,7 @@ class C27(Prop):
                     if after != out["journals"][-1]:
                         raise RuntimeError("harness: the journal changed while a stopped life was being torn down")
                 out["t_end"] = VClock.t
+                out["decoy"] = log.decoy_rows()
             finally:
                 responder.cancel()
                 await asyncio.gather(responder, return_exceptions=True)
@@ -820,12 +853,13 @@ class C27(Prop):
             return r
         lives = run["lives"]
         A = lives[0]
-        r.classes.append(f"lives_{len(lives)}")
-        r.classes.append("stop_at_" + str(A.where))
+        out, r = r, CaseResult()  # symptoms are collected in `r`; `out` is what the runner sees (root causes first, see below)
+        out.classes.append(f"lives_{len(lives)}")
+        out.classes.append("stop_at_" + str(A.where))
         if case["retry_wait"] and any(j["fail"] for j in case["jobs"]):
-            r.classes.append("delayed_retry")
+            out.classes.append("delayed_retry")
         if case["wait"]:
-            r.classes.append("waiter")
+            out.classes.append("waiter")
         jA = run["journals"][0]
         inside = bool(jA) and not getattr(A, "finished", False)
         # ---- per recovery oracles
@@ -866,15 +900,26 @@ class C27(Prop):
                     got=(Q.pubs[i] or {}).get("t") if i < len(Q.pubs) else None,
                     **attrs,
                 )
-            # (c) bodies whose completion the stopped life had processed must not run again
-            processed = self._processed_counts(lives[:k])
-            total_ref = self._body_counts([L0])
-            ran = self._body_counts([Q])
-            for key, cnt in sorted(ran.items()):
-                allowed = total_ref.get(key, 0) - processed.get(key, 0)
-                if cnt > max(allowed, 0) and processed.get(key, 0) > 0:
-                    r.v("completed_step_body_ran_again", step=key[0], ran=cnt, processed_before=processed.get(key, 0), needed=total_ref.get(key, 0), **attrs)
-                    break
+            # (c) a step invocation (function id) that an earlier life had seen complete -- wait_for_next_task returned its task, so
+            # the completion is journaled -- must not execute its body again; and, where the number of body executions per job is
+            # fixed by the program (everything but a gatherer with 2 workers, which the reducer re-runs on stale snapshots), no job
+            # gets more executions than the uninterrupted run needs
+            seen_done = {fid for lv in lives[:k] for (_key, fid) in lv.returned}
+            again = sorted(fid for (fid, name, rep) in Q.ops if name.startswith(N_STEP + ":") and not rep and fid in seen_done)
+            if again:
+                name = next(n for (f, n, rep) in Q.ops if f == again[0])
+                r.v("completed_step_body_ran_again", step=name.split(".")[-1], how="function_id", **attrs)
+            else:
+                processed = self._processed_counts(lives[:k])
+                total_ref = self._body_counts([L0])
+                ran = self._body_counts([Q])
+                for key, cnt in sorted(ran.items(), key=repr):
+                    if key[0] == "gather" and case["gather_workers"] > 1:
+                        continue
+                    allowed = total_ref.get(key, 0) - processed.get(key, 0)
+                    if cnt > max(allowed, 0) and processed.get(key, 0) > 0:
+                        r.v("completed_step_body_ran_again", step=key[0], how="count", ran=cnt, processed_before=processed.get(key, 0), needed=total_ref.get(key, 0), **attrs)
+                        break
             # (e) journal
             self._check_journal(r, tag, run["journals"][k] if k < len(run["journals"]) else [], Q, run["journals"][k - 1], attrs)
             # non-triviality: the journal decided against what was already finished
@@ -893,6 +938,33 @@ class C27(Prop):
             if got != want:
                 field = next((f for f in ("ids", "vals", "reply") if isinstance(got, dict) and isinstance(want, dict) and got.get(f) != want.get(f)), "other")
                 r.v("recovered_result_differs", field=field, got=repr(got)[:120], want=repr(want)[:120])
+        want_decoy = [[(OTHER_RUN, i, k) for i, k in enumerate(DECOY_KEYS)], [(OTHER_RUN, f, N_NOW) for f in (1, 2, 500, 9000)]]
+        if _j(run.get("decoy")) != _j(want_decoy):
+            d = run.get("decoy") or [[], []]
+            r.v("rows_of_another_run_touched", journal_rows=len(d[0]), op_rows=len(d[1]))
+        # ---- root causes that can be observed directly; their consequences (the symptoms above) are folded into one record
+        symptoms = sorted({v["kind"] for v in r.violations})
+        lost = self._purged_receives(run, lives)
+        fired = sum(1 for lv in lives[:-1] for w in lv.waits if w["expected"] is None and w["completed"] is None)
+        journaled_timeouts = sum(1 for row in run["journals"][-1] if row[3].startswith("__timeout"))
+        other = next(
+            (w for lv in lives[1:] for w in lv.waits if w["expected"] is not None and w["completed"] not in (None, w["expected"])), None
+        )
+        if lost:
+            out.v("received_message_deleted_by_orphan_purge", stop_where=lost["stop_where"], recovery=lost["recovery"], symptoms=symptoms)
+        elif (symptoms or other) and fired > journaled_timeouts:
+            out.v(
+                "replay_diverges_after_unjournaled_timeout",
+                returned_other_task=other is not None,
+                expected_was_started=(other or {}).get("expected_started"),
+                symptoms=symptoms,
+            )
+        else:
+            if other is not None:
+                out.v("replay_returned_other_task", expected=other["expected"].split(":")[0], completed=str(other["completed"]).split(":")[0],
+                      expected_was_started=other.get("expected_started"))
+            out.violations.extend(r.violations)
+        r = out
         r.nontrivial = bool(inside and len(lives) > 1 and had_choice)
         if inside:
             r.classes.append("stop_inside")
@@ -900,9 +972,26 @@ class C27(Prop):
             r.classes.append("journal_decided")
         if len(lives) > 1 and any(op[2] for op in lives[1].ops):
             r.classes.append("replayed_ops")
+        if fired:
+            r.classes.append("timer_fired_before_stop")
         r.sample = {"case": case, "stops": stops[:-1], "stop_where": [lv.where for lv in lives[:-1]], "journal_at_stop": [row[3] for row in jA][:40],
                     "ticks_A": len(A.ticks), "ticks_last": len(last.ticks)}
         return r
+
+    def _purged_receives(self, run, lives):
+        """A recorded DBOS.recv output that held a message at a stop, and that a later life executed afresh under the same function id
+        (or that is gone at the end): the message had been consumed from the mailbox, so it is lost."""
+        for k in range(1, len(lives)):
+            if k - 1 >= len(run["ops"]):
+                break
+            held = [fid for (fid, name, has) in run["ops"][k - 1] if name == N_RECV and has]
+            for q in range(k, min(len(lives), len(run["ops"]))):
+                still = {fid for (fid, name, has) in run["ops"][q] if name == N_RECV and has}
+                fresh = {fid for (fid, name, rep) in lives[q].ops if name == N_RECV and not rep}
+                hit = [fid for fid in held if fid not in still or fid in fresh]
+                if hit:
+                    return {"recovery": q, "stop_where": lives[k - 1].where, "fid": hit[0]}
+        return None
 
     # ---------------------------------------------------------------------------------------------------------- helpers
     @staticmethod
